@@ -344,6 +344,26 @@ def helper_level(ctx, n, rnd):
                 ctx.nontriv(("helper-gen", bi, i))
 
 
+def big_upload(ctx, rnd):
+    """a file part larger than the spooling threshold of UploadFile (1 MiB: memory -> disk roll-over) and a small one after it,
+    through the request form accessors in 64 KiB pieces"""
+    from .adapters import mp_common as M
+    B = b"bigB"
+    big = bytes(rnd.getrandbits(8) for _ in range(4096)) * 300 + b"\r\n--big" + b"\r\n"    # ~1.2 MiB, ends like a partial delimiter
+    body = (b'--bigB\r\nContent-Disposition: form-data; name="up"; filename="big.bin"\r\nContent-Type: application/x-t\r\n\r\n' + big +
+            b'\r\n--bigB\r\nContent-Disposition: form-data; name="after"\r\n\r\nv\r\n--bigB--\r\n')
+    chunks = [body[i:i + 65536] for i in range(0, len(body), 65536)]
+    want = [("up", "big.bin", "application/x-t", big), ("after", "v")]
+    for which in ("wsgi", "asgi"):
+        out, items = M.run_helper(which, chunks, B)
+        ctx.count()
+        if out != "ok" or items != want:
+            ctx.violation({"api": which, "file_bytes": len(big), "chunk": 65536}, "the uploaded bytes, then the field after it",
+                          {"outcome": out, "items": [(it[0], len(it[-1])) for it in (items or [])]},
+                          "%s form accessor does not return a %d-byte upload (beyond the in-memory spool limit) exactly" % (which, len(big)))
+        ctx.nontriv(("big-upload", which))
+
+
 def pytest_sessions(ctx, wd, repo, verif):
     """the decoder sessions of the repository's own tests, validated step by step (no known form: mechanism only)"""
     import json
